@@ -230,7 +230,14 @@ impl<
         &self,
         timestamp: Timestamp,
     ) -> Result<&shared::TzifLocalTimeType, &PosixTimeZone<ABBREV>> {
-        let timestamp = timestamp.as_second();
+        // The transition times are whole seconds, so we need the *floor* of
+        // the timestamp. `as_second` truncates toward zero, which is too big
+        // by one for instants before the epoch with a fractional second.
+        let timestamp = if timestamp.subsec_nanosecond() < 0 {
+            timestamp.as_second().saturating_sub(1)
+        } else {
+            timestamp.as_second()
+        };
         // This is guaranteed because we always push at least one transition.
         // This isn't guaranteed by TZif since it might have 0 transitions,
         // but we always add a "dummy" first transition with our minimum
@@ -395,8 +402,11 @@ impl<
         ts: Timestamp,
     ) -> Option<TimeZoneTransition> {
         assert!(!self.timestamps().is_empty(), "transitions is non-empty");
+        // We want the latest transition strictly before `ts`, so we search
+        // for the *ceiling* of `ts`. `as_second` truncates toward zero, which
+        // already is the ceiling for instants before the epoch.
         let mut timestamp = ts.as_second();
-        if ts.subsec_nanosecond() != 0 {
+        if ts.subsec_nanosecond() > 0 {
             timestamp = timestamp.saturating_add(1);
         }
         let search = self.timestamps().binary_search(&timestamp);
@@ -449,7 +459,15 @@ impl<
         ts: Timestamp,
     ) -> Option<TimeZoneTransition> {
         assert!(!self.timestamps().is_empty(), "transitions is non-empty");
-        let timestamp = ts.as_second();
+        // We want the soonest transition strictly after `ts`, so we search
+        // for the *floor* of `ts`. `as_second` truncates toward zero, which is
+        // too big by one for instants before the epoch with a fractional
+        // second.
+        let timestamp = if ts.subsec_nanosecond() < 0 {
+            ts.as_second().saturating_sub(1)
+        } else {
+            ts.as_second()
+        };
         let search = self.timestamps().binary_search(&timestamp);
         let index = match search {
             Ok(i) => i.checked_add(1)?,
